@@ -311,7 +311,7 @@ def main_cases():
         interp.contracts["halmos.__main__:run_test"] = run_test
         interp.contracts["halmos.solve:FunctionContext"] = lambda i, a, k: NS(**k)  # (its __post_init__ creates dump directories and a thread pool)
         interp.contracts["halmos.__main__:with_devdoc"] = lambda i, a, k: NS(layer=("function", a[1]), base=a[0], invariant_depth=2, formatted_layers=lambda: "", debug=False, debug_config=False)
-        cctx = NS(args=NS(debug_config=False, debug=False), method_identifiers={"check_a()": "11", "check_b()": "22", "check_c()": "33"}, name="C", contract_json={})
+        cctx = NS(args=LenientArgs(debug_config=False, debug=False), method_identifiers={"check_a()": "11", "check_b()": "22", "check_c()": "33"}, name="C", contract_json={})
         n0 = len(ctx.ghost_log)
         res = interp.call(hm.run_tests, [cctx, setup_ex, ["check_a()", "check_b()", "check_c()"]], {})
         ctx.oblige("one result per selected test, in order; a test that raises becomes an EXCEPTION result and the others still run", z3.BoolVal(len(res) == 3 and res[0].exitcode == 0 and res[1].exitcode == hm.Exitcode.EXCEPTION.value and res[2].exitcode == 0 and len(made) == 3))
@@ -320,7 +320,41 @@ def main_cases():
         ctx.oblige("function-level configuration is derived per test from the contract's configuration (an annotation of one test never reaches another)", z3.BoolVal(all(m.args.base is cctx.args and m.args.layer == ("function", f"check_{c}()") for m, c in zip(made, "abc"))))
 
     out.append(Case(f"{PROP}/__main__.run_tests", "three tests, the second raises", harness_tests, sources=("halmos.__main__:run_tests",)))
+
+    def harness_depth(interp):
+        """the values USED for a test are those of its own configuration (contract configuration + its own annotation)"""
+        ctx = interp.ctx
+        made = []
+        setup_ex = NS(tag="post-setUp state")
+        own_depth = {"invariant_a()": 4, "check_b()": 6, "invariant_c()": 9}
+        interp.contracts["halmos.__main__:run_test"] = lambda i, a, k: (made.append(a[0]), NS(name=a[0].info.sig, exitcode=0))[1]
+        interp.contracts["halmos.solve:FunctionContext"] = lambda i, a, k: NS(**k)
+        interp.contracts["halmos.__main__:with_devdoc"] = lambda i, a, k: LenientArgs(layer=("function", a[1]), base=a[0], invariant_depth=own_depth[a[1]], formatted_layers=lambda: "", debug=False, debug_config=False)
+        interp.contracts["halmos.__main__:get_invariant_testing_context"] = lambda i, a, k: NS(tag="inv ctx")
+        interp.contracts["halmos.__main__:print_invariant_targets"] = lambda i, a, k: None
+        cctx = NS(args=LenientArgs(debug_config=False, debug=False, invariant_depth=2), method_identifiers={s: "11" for s in own_depth}, name="C", contract_json={}, set_invariant_testing_context=lambda c: None)
+        res = interp.call(hm.run_tests, [cctx, setup_ex, list(own_depth)], {})
+        ctx.oblige("one context per test", z3.BoolVal(len(made) == 3 and len(res) == 3))
+        if len(made) == 3:
+            ctx.oblige("the call-depth bound used for an invariant test is the one of its own configuration (function annotation included); a regular test makes no target calls", z3.BoolVal([m.max_call_depth for m in made] == [4, 0, 9]), info={"used": [m.max_call_depth for m in made]})
+            ctx.oblige("the configuration handed to each test is its own", z3.BoolVal(all(m.args.layer == ("function", s) for m, s in zip(made, own_depth))))
+
+    out.append(Case(f"{PROP}/__main__.run_tests", "two invariant tests with their own depth annotation and a regular test", harness_depth, replay=replay_script("invariant_depth_annotation.py", "invariant tests with a @custom:halmos --invariant-depth annotation"), sources=("halmos.__main__:run_tests",)))
     return out
+
+
+class LenientArgs:
+    """a configuration stub that answers the options a harness does not care about with halmos' defaults"""
+
+    def __init__(self, **kw):
+        self.__dict__.update(kw)
+
+    def __getattr__(self, name):
+        if name.startswith("__"):
+            raise AttributeError(name)
+        from contracts.common import config
+
+        return getattr(config(), name)
 
 
 def copy_cases():
@@ -382,6 +416,11 @@ def build_cases(tier="quick"):
     for c in c08.offsetmap_cases():
         if "KeccakRegistry" in c.unit:
             ref.append(Case(f"{PROP}/sevm.KeccakRegistry.copy", c.case, c.harness, replay=c.replay, sources=c.sources))
+    # every test contract is deployed with a block of its own (C14's unit): the block cheatcodes write it in place
+    from contracts import c14
+    from contracts.common import rewrap
+
+    ref += rewrap(PROP, c14.default_block_cases(), "per-deployment-block")
     return classify_cases() + fork_cases() + main_cases() + copy_cases() + ref
 
 
